@@ -99,6 +99,8 @@ def source(sfx, p, with_inner=True, variant=0):
           f"class Holder{S}(Schema):", f"    v: Frozen{S} = Frozen{S}(tags=[1])", f"    many: List[Pt{S}] = [Pt{S}(tags=[1])]", f"    one: Pt{S} = Pt{S}(tags=[2])", ""]
     # a field that is left out (at its default) under its own 'exclude' policy, and one that depends on it
     L += [f"class RX{S}(Schema):", "    dep: int = Field(default=0, on_error='exclude')", "    main: int = Field(required=False, dependencies=['dep'])", ""]
+    # a class with parsing switched off: its generated __init__ still must not touch the mapping it is given
+    L += ["@utype.dataclass(no_parse=True)", f"class NP{S}:", "    n: int = 0", "    secret: int = Field(default=0, no_output=True)", ""]
     # one Field object shared by two declarations whose types are named by reference (resolved at the first parse)
     L += [f"SHORT{S} = Field(max_length=3, required=False)",
           f"class LitA{S}(Schema):", f"    kind: 'KindT{S}' = SHORT{S}", "",
@@ -241,6 +243,8 @@ def generate(rng, tier):
             if rng.random() < 0.5:
                 more["lst"] = rng.choice([[5], ["6"], ["zz"]])
             ops.append({"op": "init_pos", "cls": rng.choice(["A", "D"]), "data": d, "more": more})
+            if rng.random() < 0.3:
+                ops.append({"op": "init_pos", "cls": "NP", "data": {"n": rng.choice([1, 2]), "secret": 3}, "more": rng.choice([{}, {}, {"n": 4}])})
         elif r < 0.56:
             ops.append({"op": "call", **fill(rng.choice(F_TEMPLATES))})
         elif r < 0.6:
@@ -352,6 +356,8 @@ def _outcome(fn):
 def _pos_inputs(op):
     data = _val(op["data"])
     more = _val(op["more"])
+    if op["cls"] == "NP":
+        return data, more
     if op["cls"] == "D":    # the smaller class declares fewer fields
         keep = ("n", "lst", "dct", "raw", "fl", "leaf")
         more = {key: x for key, x in more.items() if key in keep}
